@@ -407,7 +407,8 @@ ASSUMPTIONS = [
 def evidence(agg, tier, seed, wall):
     L = lib.get()
     census = L.census()
-    all_methods = sorted({c.rsplit(".", 1)[-1] + "." + m for c, ms in census.items() for m in ms})
+    all_methods = sorted({c.rsplit(".", 1)[-1] + "." + m for src in (census, L.pinned_census())
+                          for c, ms in src.items() for m in ms})
     covered = sorted(m for m in all_methods if agg["methods"].get(m, 0) > 0)
     missing = sorted(set(all_methods) - set(covered))
     rate = agg["runs"] / wall * 3600 if wall > 0 else 0
@@ -439,6 +440,7 @@ def evidence(agg, tier, seed, wall):
         "builder_methods_exercised": len(covered),
         "builder_methods_not_exercised": missing,
         "methods_without_recipe": sorted(agg["uncovered"]),
+        "pinned_builder_methods_that_lost_their_decorator": L.lost_decorators(),
         "per_method_calls": dict(sorted(agg["methods"].items())),
         "components": {"real": ["pypika_tortoise (whole package, imported from the repo working tree)"],
                        "stubbed": [], "harness_doubles": ["actor threads", "FaultyLeaf(Term)"]},
